@@ -90,6 +90,51 @@ pub fn maps(ctx: &Ctx) -> Stats {
     st
 }
 
+/// the same maps requested concurrently for different k from many threads (computers for several k coexist in one
+/// process: Python objects, library users): every answer must still be the table of the k that was asked for
+pub fn concurrent(ctx: &Ctx) -> Stats {
+    let rounds = ctx.n(300, 5000);
+    let threads = 16usize;
+    let st = std::sync::Mutex::new(Stats::new());
+    std::thread::scope(|sc| {
+        for t in 0..threads {
+            let st = &st;
+            sc.spawn(move || {
+                let mut local = Stats::new();
+                let mut rng = Rng::keyed(ctx.seed, "c03.concurrent", t as u64);
+                for i in 0..rounds {
+                    if ctx.expired() {
+                        local.truncated = true;
+                        break;
+                    }
+                    // neighbouring threads ask for different k at the same time; small k dominate so that calls are short and overlap often
+                    let k = if i % 7 == 0 { rng.usize(5, 8) } else { 1 + ((t as u64 + i) % 5) as usize };
+                    let c = cols(k);
+                    local.case(true, mix(k as u64) ^ mix(t as u64 * 1_000_003 + i));
+                    local.class(&format!("k={}", k));
+                    let case = Json::obj().set("k", Json::u(k)).set("thread", Json::u(t)).set("round", Json::Int(i as i128)).set("concurrent_threads", Json::u(threads));
+                    match guarded(|| (KmerGenerator::kmer_pos_maps(k), OligoComputer::new("unused.fa".into(), "unused.out".into(), k).verif_get_header())) {
+                        Err(p) => local.violate(&panic_sig(&p), format!("kmer_pos_maps({}) panicked under concurrent use: {}", k, p), case),
+                        Ok(((pos_map, pos_kmer, count), header)) => {
+                            if count != c.codes.len() || pos_kmer.len() != c.codes.len() {
+                                local.violate("posmap.concurrent.count", format!("k={}: column count {} / inverse size {} under concurrent use, expected {}", k, count, pos_kmer.len(), c.codes.len()), case);
+                            } else if c.codes.iter().enumerate().any(|(rank, &code)| pos_map.get(code as usize) != Some(&rank) || pos_kmer.get(&rank) != Some(&code)) {
+                                local.violate("posmap.concurrent.rank", format!("k={}: a canonical k-mer does not map to its rank (or back) under concurrent use", k), case);
+                            } else if header.iter().map(|s| s.as_str()).ne(c.names.iter().map(|s| s.as_str())) {
+                                local.violate("oligo.header.concurrent", format!("k={}: header differs from the canonical k-mers in column order under concurrent use", k), case);
+                            }
+                        }
+                    }
+                }
+                st.lock().unwrap().merge(local);
+            });
+        }
+    });
+    let mut st = st.into_inner().unwrap();
+    st.set_extra("threads", Json::u(threads));
+    st
+}
+
 /// header line through both writers (library) and through the CLI for every preset
 pub fn headers(ctx: &Ctx) -> Stats {
     let mut st = Stats::new();
